@@ -370,6 +370,17 @@ func runFaultJob(c *Ctl, job *Job, idx int, res *RunResult) {
 		res.Sample = map[string]interface{}{"world": w.Summary(), "cancel_at_step": variant, "via": prof.CancelVia, "cancels": w.NFaults}
 	case "c08":
 		w = GenOverrideWorld(c.Ch, thorough)
+		if len(w.ExtraGraphs) == 1 && c.Ch.Bool(1, 2, "first-pipeline-nests-the-second") {
+			// a stage of the first pipeline nests the second one and carries overrides of its own: they
+			// are not the nested stages' (which keep exactly their own), and the second pipeline's turn
+			// as a target of its own comes when it has already run
+			n := &StageSpec{Name: "p1n", Nested: w.ExtraGraphs[0], Env: map[string]string{"VS_E0": "p1n-e0", "VS_ONLY_P1N": "only-p1n"}, Vars: map[string]string{"VS_V0": "p1n-v0"}}
+			if c.Ch.Bool(1, 2, "nesting-stage-dep") {
+				n.Deps = []string{w.Graph.Stages[0].Name}
+			}
+			w.Graph.Stages = append(w.Graph.Stages, n)
+			c.Count("c08_worlds_with_a_nesting_stage_that_has_overrides")
+		}
 		prof.UseRunEnter = true
 		prof.UseStageStart = true
 		prof.WAdvance = 1
